@@ -93,11 +93,17 @@ impl<'a> ExpressionEvaluator<'a> {
         self.program().expect_next_token(Token::RightParen)?;
         self.program()
             .push_function_call_onto_stack_and_goto_it(function_name, bindings)?;
-        let value = self.evaluate_expression()?;
+        let result = self.evaluate_expression().map_err(|mut err| {
+            // Home the error at the function's definition while we're still there.
+            self.program().populate_error_location(&mut err);
+            err
+        });
+        // Pop the frame even if the body failed: a leftover frame would shadow
+        // variables and swallow a RETURN once the user continues the program.
         self.program()
             .pop_function_call_off_stack_and_return_from_it();
 
-        Ok(Some(value))
+        Ok(Some(result?))
     }
 
     fn evaluate_function_call(
